@@ -65,6 +65,6 @@ impl LuaIndex for JsonSchemaIndex {
     }
 
     fn clear(&mut self) {
-        // TODO clear all schema index
+        self.schema_files.clear();
     }
 }
